@@ -439,7 +439,8 @@ func validateNonEmptyWithAllowNil(v interface{}, _ string, allowNil bool) error 
 
 	val := reflect.ValueOf(v)
 	if val.Kind() == reflect.Array || val.Kind() == reflect.Slice {
-		if val.IsNil() {
+		// (a fixed-size array is never nil)
+		if val.Kind() == reflect.Slice && val.IsNil() {
 			if allowNil {
 				return nil
 			}
